@@ -33,6 +33,17 @@ Theorem C26_decode_errors : forall bs e,
   end.
 Proof. exact decode_errors. Qed.
 
+(* Consequence: the encoding is injective and prefix-free on u128 — a concatenation of varints
+   (a runestone payload) splits in exactly one way. *)
+Theorem C26_encode_prefix_free : forall n m r r', n < P128 -> m < P128 ->
+  encode n ++ r = encode m ++ r' -> n = m /\ r = r'.
+Proof.
+  intros n m r r' Hn Hm E.
+  destruct (C26_roundtrip n r Hn) as [Dn _]. destruct (C26_roundtrip m r' Hm) as [Dm _].
+  rewrite E in Dn. rewrite Dn in Dm. injection Dm as Enm _. subst m.
+  split; [reflexivity|]. exact (app_inv_head _ _ _ E).
+Qed.
+
 (* Non-vacuity: u128::MAX satisfies the hypothesis and uses all 19 bytes. *)
 Example C26_nonvacuous : U128_MAX < P128 /\ length (encode U128_MAX) = 19%nat /\
   decode (encode U128_MAX) = inr (U128_MAX, 19).
@@ -41,3 +52,4 @@ Proof. vm_compute. repeat split. Qed.
 Print Assumptions C26_roundtrip.
 Print Assumptions C26_decode_exact.
 Print Assumptions C26_decode_errors.
+Print Assumptions C26_encode_prefix_free.
